@@ -402,10 +402,15 @@ func (fr *Frame) inline(fn *ssa.Function, bindings []Term, args []Term, c *block
 		}
 	}
 	g.sc.Comment(">>> inline %s", funcKey(fn))
+	// an inlined call is an anchor like any other call
+	fr.callOrd["call:"+funcKey(fn)]++
+	site := fmt.Sprintf("%s#%d", lastName(funcKey(fn)), fr.callOrd["call:"+funcKey(fn)]-1)
+	fr.anchor("before call "+site, c, nil)
 	exit, res, rr := sub.execBody(c.st, c.reach)
 	g.sc.Comment("<<< end inline %s", funcKey(fn))
 	c.st = exit
 	c.reach = rr
+	fr.anchor("after call "+site, c, res)
 	// deferred calls registered inside are run by the callee's own RunDefers
 	return res
 }
@@ -537,6 +542,10 @@ func (fr *Frame) anchor(name string, c *blockCtx, results []Term) {
 		if a.Anchor != name {
 			continue
 		}
+		if fr.firedAnchors == nil {
+			fr.firedAnchors = map[int]bool{}
+		}
+		fr.firedAnchors[i] = true
 		env := fr.baseEnv(c.st)
 		at := fr.curBlock
 		env.resolve = func(n string, st2 *State) (Term, Ty, bool) {
@@ -572,6 +581,11 @@ func (fr *Frame) anchor(name string, c *blockCtx, results []Term) {
 				fr.havocLoc(&henv, loc, c.st)
 			}
 			g.usedAssumed["rely(havoc)@"+funcKey(fr.fn)+": "+a.C.Src] = true
+			continue
+		}
+		if a.SetName != "" {
+			t, _ := env.tr(a.C.E)
+			g.setGhost(c.st, a.SetName, "Nil", t.S)
 			continue
 		}
 		f := env.trBool(a.C.E)
